@@ -44,6 +44,7 @@ type c16Span struct {
 	phase   int // 1,2 = while stressed; 3 = after relief ended
 	key     string
 	dataset string
+	manual  bool // posted by a scripted part of the case, not by postPhase
 }
 
 func TestVerif_C16(t *testing.T) {
@@ -66,11 +67,19 @@ func TestVerif_C16(t *testing.T) {
 		// StressRelief normalises to 1) every trace first seen under stress is kept,
 		// so a late span after relief can only be forwarded if the stress decision
 		// was remembered; a fresh decision by the drop-all sampler loses it.
+		// Stratum 3 ("lru"): long-lived traces kept under stress relief on a node with a
+		// tiny kept-decision cache (one worker, KeptSize 8): between their first span
+		// and relief ending more than KeptSize other traces are kept on that worker,
+		// but fewer than KeptSize since their latest span, so a cache that refreshes
+		// an entry when it is used still knows them.
+		lru := ci%4 == 3
 		switch ci % 4 {
 		case 0:
 			rate, normalKeepsAll = 1, false
 		case 2:
 			rate, normalKeepsAll = verifkit.Pick(rng, uint64(0), 1, 2, 50), false
+		case 3:
+			rate, normalKeepsAll = 1, false
 		}
 		cl, err := e2Start(e2Options{Nodes: nNodes, Configure: func(_ int, cfg *config.MockConfig) {
 			cfg.GetTracesConfigVal.BatchTimeout = config.Duration(batchTimeout)
@@ -78,6 +87,10 @@ func TestVerif_C16(t *testing.T) {
 			cfg.GetTracesConfigVal.TraceTimeout = config.Duration(60 * time.Millisecond)
 			cfg.GetTracesConfigVal.SendDelay = config.Duration(5 * time.Millisecond)
 			cfg.GetCompressPeerCommunicationsVal = compress
+			if lru {
+				cfg.GetCollectionConfigVal.WorkerCount = 1
+				cfg.SampleCache.KeptSize = 8
+			}
 			if !normalKeepsAll {
 				cfg.GetSamplerTypeVal = &config.DeterministicSamplerConfig{SampleRate: 1 << 30}
 			}
@@ -120,6 +133,9 @@ func TestVerif_C16(t *testing.T) {
 			}
 		}
 		nTraces := rng.Range(30, 50)
+		if lru {
+			nTraces = 0 // the scripted sequence below is the stressed workload
+		}
 		for ti := 0; ti < nTraces; ti++ {
 			tr := &traceInfo{id: fmt.Sprintf("c16-%d-%d-%s", ci, ti, rng.Hex(10)), key: verifkit.Pick(rng, keys...), dataset: verifkit.Pick(rng, datasets...)}
 			mk(tr, 1, rng.Range(1, 3), true)
@@ -144,7 +160,7 @@ func TestVerif_C16(t *testing.T) {
 			groups := map[string][]string{}
 			var ids []string
 			for id, s := range spans {
-				if s.phase == phase {
+				if s.phase == phase && !s.manual {
 					ids = append(ids, id)
 				}
 			}
@@ -223,13 +239,128 @@ func TestVerif_C16(t *testing.T) {
 				return
 			}
 		}
+		// ---- scripted "lru" sequence (stratum 3), everything entering node 0, in order:
+		// first spans of 3 long traces owned by node 0, 5 other traces, second spans of
+		// the long traces, 5 other traces; their late spans follow after relief (phase 3)
+		if lru {
+			var long []*traceInfo
+			for j := 0; len(long) < 3 && j < 10000; j++ {
+				tid := fmt.Sprintf("c16-%d-long%d-%s", ci, j, rng.Hex(8))
+				if o, _ := cl.OwnerOf(0, tid); o != 0 {
+					continue
+				}
+				long = append(long, &traceInfo{id: tid, key: e2KeyA, dataset: "c16-a"})
+			}
+			one := func(tr *traceInfo, phase int, tag string) e2Span {
+				id := fmt.Sprintf("%s/%s", tr.id, tag)
+				sp := e2Span{ID: id, TraceID: tr.id, ParentID: "p" + rng.Hex(6), Time: now, Fields: map[string]any{"name": "lru-" + tag}}
+				spans[id] = &c16Span{span: sp, entry: 0, phase: phase, key: tr.key, dataset: tr.dataset, manual: phase < 3}
+				tr.ids[phase] = append(tr.ids[phase], id)
+				return sp
+			}
+			postOne := func(tr *traceInfo, sp e2Span) bool {
+				return cl.PostBatch(0, false, tr.key, tr.dataset, []e2Span{sp}).AllAccepted(1)
+			}
+			ok := true
+			filler := func(n int, tag string) {
+				for k := 0; k < n; k++ {
+					tr := &traceInfo{id: fmt.Sprintf("c16-%d-fill-%s%d-%s", ci, tag, k, rng.Hex(8)), key: e2KeyA, dataset: "c16-a"}
+					traces = append(traces, tr)
+					ok = postOne(tr, one(tr, 1, "s0")) && ok
+				}
+			}
+			for _, tr := range long {
+				ok = postOne(tr, one(tr, 1, "first")) && ok
+			}
+			filler(5, "a")
+			for _, tr := range long {
+				ok = postOne(tr, one(tr, 2, "second")) && ok
+			}
+			filler(5, "b")
+			for _, tr := range long {
+				one(tr, 3, "late") // posted by postPhase(3) after relief ended
+				traces = append(traces, tr)
+			}
+			if !ok || !cl.WaitPeerTrafficDrained() {
+				run.Inconclusive("the scripted long-trace sequence was not accepted")
+				return
+			}
+			run.Count("long_lived_stress_kept_traces", int64(len(long)))
+		}
+		// ---- first-use bursts (all strata but "lru"): K clients released together post
+		// the first spans this node ever sends to a brand-new dataset
+		if !lru {
+			rounds, k := 30, 8
+			var burst []*traceInfo
+			for r := 0; r < rounds; r++ {
+				node := rng.Intn(nNodes)
+				key := verifkit.Pick(rng, keys...)
+				ds := fmt.Sprintf("c16-burst-%d-%d", ci, r)
+				// every client first parks its request inside Router.batch (headers and half
+				// of the body sent), then all bodies are completed at once: the handlers wake
+				// up together and reach the transmission within microseconds of each other
+				start := make(chan struct{})
+				var wg sync.WaitGroup
+				var mu sync.Mutex
+				failed := false
+				base := cl.Counter(node, "incoming_router_batch")
+				var helds []*e2HeldRequest
+				for g := 0; g < k; g++ {
+					tr := &traceInfo{id: fmt.Sprintf("c16-%d-burst%d-%d-%s", ci, r, g, rng.Hex(8)), key: key, dataset: ds}
+					id := tr.id + "/b"
+					sp := e2Span{ID: id, TraceID: tr.id, Time: now, Fields: map[string]any{"name": "burst"}}
+					spans[id] = &c16Span{span: sp, entry: node, phase: 2, key: key, dataset: ds, manual: true}
+					tr.ids[2] = append(tr.ids[2], id)
+					burst = append(burst, tr)
+					h, err := cl.HoldBatch(node, key, ds, []e2Span{sp})
+					if err != nil {
+						run.Inconclusive("could not open a first-use burst request: " + err.Error())
+						return
+					}
+					helds = append(helds, h)
+				}
+				if !cl.WaitFor(func() bool { return cl.Counter(node, "incoming_router_batch")-base >= int64(k) }) {
+					run.Inconclusive("first-use burst requests did not reach the batch handler")
+					return
+				}
+				for _, h := range helds {
+					wg.Add(1)
+					go func() {
+						defer wg.Done()
+						<-start
+						if !h.Finish().AllAccepted(1) {
+							mu.Lock()
+							failed = true
+							mu.Unlock()
+						}
+					}()
+				}
+				close(start)
+				wg.Wait()
+				if failed {
+					run.Inconclusive("a first-use burst request was not accepted")
+					return
+				}
+			}
+			traces = append(traces, burst...)
+			if !cl.WaitPeerTrafficDrained() {
+				run.Inconclusive("peer traffic did not drain after the bursts")
+				return
+			}
+			run.Count("first_use_burst_spans", int64(len(burst)))
+		}
 		stressCounters := cl.Snapshot("kept_from_stress", "dropped_from_stress", "trace_accepted", "incoming_router_peer", "peer_router_peer")
 		if waitUpstreamBeforeRelief {
-			if !cl.WaitFor(func() bool {
-				return cl.Sum("libhoney_upstream_queued_items") == 0 && cl.Sum("libhoney_peer_queued_items") == 0
-			}) {
-				run.Inconclusive("upstream batches were not dispatched")
-				return
+			// This wait only selects the schedule "relief ends after the upstream batches
+			// went out". If the queues do not empty (events stuck in a transmission show
+			// up as missing spans below) the case simply goes on with the other schedule.
+			deadline := time.Now().Add(5 * time.Second)
+			for cl.Sum("libhoney_upstream_queued_items") != 0 || cl.Sum("libhoney_peer_queued_items") != 0 {
+				if time.Now().After(deadline) {
+					run.Count("upstream_drain_wait_gave_up", 1)
+					break
+				}
+				time.Sleep(2 * time.Millisecond)
 			}
 		}
 		// ---- relief ends
